@@ -3,6 +3,7 @@ CONSTANTS
   Dev = {}
   NSamp = 2
   EmitReplay = TRUE
+  WithPairs = FALSE
   Ancs = {2}
 INVARIANTS EntriesAreSites Traversal
 CHECK_DEADLOCK FALSE
